@@ -111,7 +111,7 @@ Lemma no_list_arm t env w :
   no_list t = true -> write_field env t = Ok w -> fw_list w = None.
 Proof.
   intros Hn Hw.
-  destruct t as [k r l0|sf r l0|r|r l0|r l0|f e l0|f64 fr l0|r l0|r l0|tr l0|od ts l0|fl orl|orr l0]; cbn [no_list] in Hn;
+  destruct t as [k r l0|sf r l0|r|r l0|r l0|f e l0|f64 fr l0|r l0|r l0|tr l0|od ts l0|rn fl orl|rn orr l0]; cbn [no_list] in Hn;
     try (destruct l0; [discriminate|]); cbn [write_field] in Hw; try (destruct fr; [discriminate Hw|]);
     try (apply obind_ok in Hw as [x [Hx Hw]]); inversion Hw; subst w; cbn [fw_list with_arm]; try reflexivity.
   inversion Hx. reflexivity.
@@ -126,7 +126,7 @@ Proof.
   assert (Hls : list_seen m w = fw_list w).
   { destruct m; try reflexivity. cbn [list_seen]. symmetry. eapply no_list_arm; eauto. }
   rewrite Hls. clear Hls Hnl. unfold vt_seen.
-  destruct t as [k r l|sf r l|r|r l|r l|f e l|f64 fr l|r l|r l|tr l|od ts l|fl orl|orr l]; cbn [write_field] in Hw.
+  destruct t as [k r l|sf r l|r|r l|r l|f e l|f64 fr l|r l|r l|tr l|od ts l|rn fl orl|rn orr l]; cbn [write_field] in Hw.
   - (* integer *)
     apply obind_ok in Hw as [vo [Hv Hw]]. inversion Hw; subst w; clear Hw.
     cbn [fw_kind fw_val fw_list fw_ext fw_key].
@@ -232,12 +232,12 @@ Qed.
 Definition list_of (t : fty) : option lpay :=
   match t with
   | TInt _ _ l | TStr _ _ l | TBool _ l | TEnum _ l | TKey _ _ l | TFloat _ _ l | TDate _ l
-  | TDecimal _ l | TTimestamp _ l | TAny _ _ l | TOneof _ l => l
-  | TBytes _ | TObject _ _ => None
+  | TDecimal _ l | TTimestamp _ l | TAny _ _ l | TOneof _ _ l => l
+  | TBytes _ | TObject _ _ _ => None
   end.
 
 Lemma norm_fty_list env t : list_of (norm_fty env t) = list_of t.
-Proof. destruct t as [| | | | | | | | | | |fl [[[mn|] [mx|]]|]|]; reflexivity. Qed.
+Proof. destruct t as [| | | | | | | | | | |rn fl [[[mn|] [mx|]]|]|]; reflexivity. Qed.
 
 Ltac break_in H :=
   repeat (cbn [obind] in H;
@@ -280,7 +280,7 @@ Proof.
     destruct m; try discriminate. cbn [list_seen]. intro H.
     apply read_field_list_none in H. rewrite norm_fty_list in H.
     destruct t; cbn [no_list list_of] in *; try discriminate; destruct l; discriminate.
-  - destruct t as [k r l|sf r l|r|r l|r l|f e l|f64 fr l|r l|r l|tr l|od ts l|fl orl|orr l];
+  - destruct t as [k r l|sf r l|r|r l|r l|f e l|f64 fr l|r l|r l|tr l|od ts l|rn fl orl|rn orr l];
       try (destruct m; discriminate).
     + (* string *)
       inversion Hw; subst w; clear Hw. cbn [fw_kind read_field norm_fty].
@@ -353,7 +353,7 @@ Qed.
 Lemma kind_not_map env t w : write_field env t = Ok w -> forall v, fw_kind w <> KdMapEntry v.
 Proof.
   intros Hw v.
-  destruct t as [k r l|sf r l|r|r l|r l|f e l|f64 fr l|r l|r l|tr l|od ts l|fl orl|orr l]; cbn [write_field] in Hw; try (destruct fr; [discriminate Hw|]);
+  destruct t as [k r l|sf r l|r|r l|r l|f e l|f64 fr l|r l|r l|tr l|od ts l|rn fl orl|rn orr l]; cbn [write_field] in Hw; try (destruct fr; [discriminate Hw|]);
     try (apply obind_ok in Hw as [x [Hx Hw]]); inversion Hw; subst w; cbn [fw_kind];
     try discriminate.
   - destruct k; discriminate.
@@ -365,7 +365,7 @@ Lemma write_field_primary_ty env t w :
   match fw_key w with Some k => kx_primary k | None => false end = is_primary_ty t.
 Proof.
   intro Hw.
-  destruct t as [k r l|sf r l|r|r l|r l|f e l|f64 fr l|r l|r l|tr l|od ts l|fl orl|orr l]; cbn [write_field] in Hw; try (destruct fr; [discriminate Hw|]);
+  destruct t as [k r l|sf r l|r|r l|r l|f e l|f64 fr l|r l|r l|tr l|od ts l|rn fl orl|rn orr l]; cbn [write_field] in Hw; try (destruct fr; [discriminate Hw|]);
     try (apply obind_ok in Hw as [x [Hx Hw]]);
     inversion Hw; subst w; cbn [fw_key is_primary_ty]; try reflexivity.
   destruct e as [[ty tn]|]; [|reflexivity]. cbn. destruct ty as [[[|]|]|]; reflexivity.
@@ -394,7 +394,7 @@ Lemma write_field_constrained env t w :
   write_field env t = Ok w -> is_some (fw_val w) = items_constrained t.
 Proof.
   intro Hw.
-  destruct t as [k r l|sf r l|r|r l|r l|f e l|f64 fr l|r l|r l|tr l|od ts l|fl orl|orr l]; cbn [write_field] in Hw; try (destruct fr; [discriminate Hw|]);
+  destruct t as [k r l|sf r l|r|r l|r l|f e l|f64 fr l|r l|r l|tr l|od ts l|rn fl orl|rn orr l]; cbn [write_field] in Hw; try (destruct fr; [discriminate Hw|]);
     try (apply obind_ok in Hw as [x [Hx Hw]]);
     inversion Hw; subst w; cbn [fw_val items_constrained]; try reflexivity.
   - destruct r as [r|].
@@ -414,7 +414,7 @@ Lemma write_field_not_empty env t w c :
   write_field env t = Ok w -> fw_val w = Some c -> c_ty c <> Some CEmpty.
 Proof.
   intros Hw Hc.
-  destruct t as [k r l|sf r l|r|r l|r l|f e l|f64 fr l|r l|r l|tr l|od ts l|fl orl|orr l]; cbn [write_field] in Hw; try (destruct fr; [discriminate Hw|]);
+  destruct t as [k r l|sf r l|r|r l|r l|f e l|f64 fr l|r l|r l|tr l|od ts l|rn fl orl|rn orr l]; cbn [write_field] in Hw; try (destruct fr; [discriminate Hw|]);
     try (apply obind_ok in Hw as [x [Hx Hw]]);
     inversion Hw as [Hweq]; rewrite <- Hweq in Hc; cbn [fw_val] in Hc; try discriminate.
   - destruct r as [r|].
